@@ -9,7 +9,7 @@ from harness import refdev
 RULE = ("fault enumeration on the real CommHandler over the harness reference device (scaled clock, watchdogs): at EVERY "
         "request of the connect handshake (stop request, common-info, each channel-info; chmax 1..3) the device falls silent, "
         "answers with the wrong frame, an undecodable frame, garbage, or leaves a residue of 1..3 header bytes, a complete header, a header plus one byte, or noise ending in a header - once or from "
-        "then on; plus random answer sequences; compared with the Coq model: outcome class, number of requests sent, nothing "
+        "then on; plus random answer sequences; plus two hostile devices (one ignores the stop request and floods the link with stream frames that nobody reads, one keeps sending valid non-stream frames from the common-info answer on); compared with the Coq model: outcome class, number of requests sent, nothing "
         "left running after a failure; then disconnect() under a watchdog and a check that no library thread survives; "
         "non-trivial = distinct (chmax, fault position, fault kind, persistence)")
 
@@ -96,6 +96,82 @@ def cases(run):
     return out
 
 
+def hostile_devices(run):
+    """devices that keep talking: connect must return (either way) and disconnect must return, with nothing left
+    running.  (a) a device that ignores the stop request and floods the link with valid stream frames - several
+    thousand frames stay unread in the stream queue; (b) a device that, once it has answered the common-info
+    request, keeps sending valid NON-stream frames faster than the drain's quiet period."""
+    from nxslib.comm import CommHandler
+    from nxslib.proto.parse import Parser
+    out = []
+    for kind in ("stream-flood", "babble"):
+        refdev.install_fast_clock(0.01)
+        before = set(threading.enumerate())
+        stop = threading.Event()
+        state = {"babble": False}
+
+        def policy(i, k, payload):
+            if k == "start":
+                return "lostreq"                     # the stop request is ignored
+            if k == "cmninfo":
+                state["babble"] = True
+            return "ok"
+        dev = refdev.RefDevice(refdev.simple_chans(2), flags=3, policy=policy, streaming=True)
+        sframe = rc.wire(rc.ID_STREAM, [0])
+        aframe = rc.wire(rc.ID_ACK, [0, 0, 0, 0])
+
+        def talker():
+            n = 0
+            while not stop.is_set() and n < 60000:
+                if kind == "stream-flood":
+                    with dev.rxlock:
+                        backlog = len(dev.rx)
+                    if backlog < 400:
+                        for _ in range(200):
+                            dev.push(sframe)
+                        n += 200
+                    else:
+                        time.sleep(0.0005)
+                else:
+                    if state["babble"]:
+                        dev.push(aframe)
+                        n += 1
+                    time.sleep(0.0003)
+        th = threading.Thread(target=talker, daemon=True)
+        th.start()
+        comm = CommHandler(dev, Parser())
+        fin, res = refdev.run_with_watchdog(comm.connect, 40)
+        what = None
+        if not fin:
+            what = "connect did not return within 40 s"
+        else:
+            if kind == "stream-flood":
+                t0 = time.time()                      # let the unread stream frames pile up
+                while time.time() - t0 < 1.5 and comm._q_stream.qsize() < 4000:
+                    time.sleep(0.01)
+            fin2, _ = refdev.run_with_watchdog(comm.disconnect, 30)
+            if not fin2:
+                what = "disconnect did not return within 30 s"
+        stop.set()
+        th.join(2)
+        comm._thrd.stop_set()
+        time.sleep(0.02)
+        left = [t.name for t in threading.enumerate() if t not in before and t.is_alive() and t.name in ("recv", "stream")]
+        if what is None and left:
+            what = "threads left after disconnect: %s" % ",".join(left)
+        run.count("hostile-" + kind, kind)
+        if what:
+            out.append(("%s device: %s" % (kind, what),
+                        {"scenario": kind, "connect": repr(res)[:200] if fin else "-", "stream_queue": comm._q_stream.qsize()}))
+            # free a receive thread that is blocked on a full queue so that the process can go on
+            try:
+                while True:
+                    comm._q_stream.get_nowait()
+            except Exception:  # noqa: BLE001
+                pass
+    return out
+
+
 def main(run):
     run.regen()
     run.prove()
@@ -105,6 +181,9 @@ def main(run):
     if model_ok:
         for what, c, m in run.differential(cases(run)):
             run.violation(what, {"call": c["cmd"][:2000], "implementation": c["impl"][:2000], "model": m[:2000]})
+        if not run.violations:
+            for what, detail in hostile_devices(run):
+                run.violation(what, detail)
     else:
         run.proof_ok = False
     return run.finish(level="proof", rule=RULE, assumptions=[
